@@ -25,8 +25,58 @@ def focus(c):
     return not c["hist"][-1]["ok"]
 
 
+def autoinc_phase(chk):
+    """The same property on a table with an AUTO_INCREMENT primary key (schedules of AutoInc.tla: generated and
+    explicit ids around the counter, UPDATE of the id, DELETE, TRUNCATE, transactions, reopen): whenever TurDB
+    rejects a statement, the table read back afterwards must equal the table read back before it. The comparison
+    is between two observations of the same database (Relational.tla: ErrLeavesStateAlone); the model only
+    supplies the schedules."""
+    import random, json, vlib, reldl, autoinc
+    thorough = chk.tier == "thorough"
+    em, _ = reldl.bfs("MC_AutoInc.tla", "Gen_AutoInc.cfg", {"MaxOps": 3, "WithBulk": False})
+    leaves = reldl.maximal(em)
+    rng = random.Random(chk.seed)
+    def cls(e):
+        return tuple((s["op"]["k"], tuple(i["c"] for i in s["op"].get("items", []))) for s in e["hist"])
+    picked = vlib.stratified_sample(leaves, cls, 6000 if thorough else 1500, rng)
+    ws = reldl.walks("MC_AutoInc.tla", "Gen_AutoInc.cfg", {"MaxOps": 14, "WithBulk": False}, 300 if thorough else 40, 14, chk.seed)
+    hists = [e["hist"] for e in picked] + [e["hist"] for e in ws]
+    cases = [autoinc.render(i, h) for i, h in enumerate(hists)]
+    outs = reldl.run_cases(cases)
+    st = {"histories": len(hists), "rejected_statements": 0, "unchanged": 0}
+    for i, h in enumerate(hists):
+        res = outs[i]
+        prev = []
+        for k, step in enumerate(h):
+            ri, si = 1 + 2 * k, 2 + 2 * k
+            if si >= len(res) or "panic" in res[ri]:
+                break
+            scan = reldl.rows_of(res[si])
+            if scan is None:
+                break
+            scan = reldl.sorted_rows(scan)
+            if "err" in res[ri]:
+                st["rejected_statements"] += 1
+                if scan == prev:
+                    st["unchanged"] += 1
+                else:
+                    op = step["op"]
+                    if op["k"] == "ins" and len(op.get("items", [])) > 1:
+                        sig = "failed_multi_row_insert_partially_applied"
+                    else:
+                        sig = "autoinc:state_changed_by_failed_%s:%s" % (op["k"], ",".join(it["c"] for it in op.get("items", [])) or "-")
+                    chk.classify(sig, {"sql": autoinc.describe(h[:k + 1]), "autoinc_hist": h[:k + 1], "before": prev, "after": scan, "error": res[ri]["err"][:160]})
+            prev = scan
+    if st["rejected_statements"] < 20:
+        raise vlib.ToolError("only %d rejected statements in the AUTO_INCREMENT schedules: vacuous" % st["rejected_statements"])
+    chk.cov["autoinc_table"] = st
+    chk.cov["traces_validated_against_impl"] += len(hists)
+    chk.mark("autoinc")
+
+
 def run(chk):
     relrun.standard(chk, relevant, signature, focus=focus)
+    autoinc_phase(chk)
 
 
 def replay(chk, path):
